@@ -5,6 +5,7 @@ import Gopki.Spec.X509
 import Gopki.Spec.Subject
 import Gopki.Model.Hash
 import Gopki.Spec.Ext
+import Gopki.Spec.Shape
 /-! `pki`: one sign run over a generated directory, replayed on the model.  For every generated
     certificate the model's DER (with the observed oracle values: fresh key, drawn serial, "now",
     signature bits) must equal the bytes gopki wrote, and the specification clauses of C01–C07 are
@@ -411,6 +412,7 @@ def replayRun (tz : Int) (files : List FileJ) (strat : Nat) (fault : Option Faul
     | none => Db.validateAndMerge s0 alias_
   -- BulkUpdate, replayed in plan order
   let mut s := s0
+  let mut hypHeld : Nat := 0
   let mut checks : List CertCheck := []
   let mut expectUpdate := ""
   let mut generatedAliases : List String := []
@@ -460,6 +462,13 @@ def replayRun (tz : Int) (files : List FileJ) (strat : Nat) (fault : Option Faul
           let serialOk := eff.serialNumber != 0 || (oracle.serial < 2 ^ 159)
           let nowOk := eff.validity.isStatic || (o.t0 - 1 ≤ c.tbs.notBefore && c.tbs.notBefore ≤ o.t1)
           let same := modelDer.toOption == some der
+          -- the hypotheses of the certificate theorems (C02_model_tbs_canonical, C02_model_cert_roundtrip, …) hold of the
+          -- body the model encodes, whenever nothing is manipulated: the theorems then speak about this very certificate
+          let m0 := eff.manipulations
+          let noManip := m0.version.isNone && m0.signatureAlgorithm.isNone && m0.signatureValue.isNone && m0.tbsSignature.isNone && m0.tbsPublicKeyAlgorithm.isNone && m0.tbsPublicKey.isNone
+          if noManip && !(e.art.key.isNone && e.art.request.isSome) then
+            if Shape.tbsOkB g.tbs && Shape.algOkB outer then hypHeld := hypHeld + 1
+            else checks := checks ++ [⟨pl.alias, false, "the hypotheses of the certificate theorems (Shape.tbsOkB) do not hold of the body the model encodes", Json.null⟩]
           checks := checks ++ [⟨pl.alias, same, if same then "" else "certificate bytes differ from model", Json.mkObj [("model", (modelDer.toOption.map bytesToHex).getD (match modelDer with | .error e => "error: " ++ e | _ => ""))]⟩]
           if !keyOk then checks := checks ++ [⟨pl.alias, false, "C05: generated key is not of the configured key algorithm (or not fresh)", Json.null⟩]
           if !serialOk then checks := checks ++ [⟨pl.alias, false, "C02: drawn serial number out of range", Json.null⟩]
@@ -573,7 +582,7 @@ def replayRun (tz : Int) (files : List FileJ) (strat : Nat) (fault : Option Faul
            branch := s!"gen{o.plan.length}" ++ (if implUpdate != "" then ":" ++ expectUpdate else ""),
            detail := Json.mkObj [("generated", toJson generatedAliases), ("detail", match badCheck with | some b => b.detail | none => Json.null),
                                  ("modelPlan", toJson (mp.map (·.1))), ("implPlan", toJson (ip.map (·.1)))],
-           feat := Json.mkObj [("entities", ents.length), ("extensions", nExt), ("updateErr", implUpdate), ("strat", strat), ("convCompared", convPlanned.isSome)],
+           feat := Json.mkObj [("entities", ents.length), ("extensions", nExt), ("updateErr", implUpdate), ("strat", strat), ("convCompared", convPlanned.isSome), ("theoremHypothesesHeld", hypHeld)],
            planned := planned, ok := implUpdate == "", errAgree := corrErr, allClauses := allClauses }
 
 def ranksOf (j : Json) (k : String) : String → Nat :=
